@@ -69,7 +69,7 @@ def worker_classes():
     Worker = _imports()
 
     class TagWorker(Worker):
-        def __init__(self, *, tag, delays=None, fail=None, pre_fail=None, init_fail=None, stream_threads=0, init_delay=0, **kw):
+        def __init__(self, *, tag, delays=None, fail=None, pre_fail=None, init_fail=None, stream_threads=0, init_delay=0, none_mod=None, **kw):
             super().__init__(**kw)
             if init_delay:
                 time.sleep(init_delay)
@@ -79,6 +79,7 @@ def worker_classes():
             self.delays = delays
             self.fail = fail
             self.pre_fail = pre_fail
+            self.none_mod = none_mod  # [m, k]: the result for requests with root % m == k is None (a legitimate value)
             if stream_threads:
                 self.num_stream_threads = stream_threads
             INITS.append((tag, self.worker_index))
@@ -99,6 +100,8 @@ def worker_classes():
                     time.sleep(d)
                 if self.fail and any(r in self.fail['xs'] for r in roots):
                     raise _mk_exc(self.fail['exc'], self.tag, roots)
+                if self.none_mod:
+                    return [None if r % self.none_mod[0] == self.none_mod[1] else [self.tag, v] for r, v in zip(roots, xs)]
                 return [[self.tag, v] for v in xs]
             LOG.append((self.tag, self.worker_index, x, s.now if s else 0.0))
             _strict(x)
@@ -109,6 +112,8 @@ def worker_classes():
                     time.sleep(d)
             if self.fail and r in self.fail['xs']:
                 raise _mk_exc(self.fail['exc'], self.tag, [r])
+            if self.none_mod and r % self.none_mod[0] == self.none_mod[1]:
+                return None
             return [self.tag, x]
 
     class TagWorkerPre(TagWorker):
@@ -134,7 +139,8 @@ def build_servlet(node):
     t = node['t']
     if t in ('thread', 'process'):
         kw = dict(tag=node['tag'], delays=node.get('delays'), fail=node.get('fail'), pre_fail=node.get('pre_fail'),
-                  init_fail=node.get('init_fail'), stream_threads=node.get('stream_threads', 0), init_delay=node.get('init_delay', 0))
+                  init_fail=node.get('init_fail'), stream_threads=node.get('stream_threads', 0), init_delay=node.get('init_delay', 0),
+                  none_mod=node.get('none_mod'))
         if node.get('b') is not None:
             kw['batch_size'] = node['b']
             if node['b'] > 1 and node.get('w') is not None:
@@ -180,6 +186,9 @@ def ref(node, v):
         f = node.get('fail')
         if f and r in f['xs']:
             return ('err', f['exc'], node['tag'])
+        nm = node.get('none_mod')
+        if nm and r % nm[0] == nm[1]:
+            return ('ok', None)
         return ('ok', [node['tag'], v])
     if t == 'seq':
         out = ('ok', v)
@@ -685,7 +694,31 @@ def gen_leaf(rng, tag, proc_ok=False, batch_ok=True):
     return lf
 
 
+def terminal_leaves(node):
+    """leaves whose result is (part of) the final answer and is not fed to a later stage"""
+    t = node['t']
+    if t in ('thread', 'process'):
+        return [node]
+    if t == 'seq':
+        return terminal_leaves(node['ch'][-1])
+    out = []
+    for c in node['ch']:
+        out.extend(terminal_leaves(c))
+    return out
+
+
 def gen_tree(rng, proc_ok=False, batch_ok=True, kinds=('leaf', 'leaf', 'seq', 'ens', 'ens', 'switch')):
+    tree = _gen_tree(rng, proc_ok, batch_ok, kinds)
+    if rng.random() < 0.2:
+        # None is a legitimate result (a lookup miss, a side-effect-only member): some final-stage worker returns it for some requests
+        for lf in terminal_leaves(tree):
+            if rng.random() < 0.6:
+                m = rng.choice([2, 3, 5])
+                lf['none_mod'] = [m, rng.randrange(m)]
+    return tree
+
+
+def _gen_tree(rng, proc_ok=False, batch_ok=True, kinds=('leaf', 'leaf', 'seq', 'ens', 'ens', 'switch')):
     tags = iter(TAGS)
     kind = rng.choice(kinds)
     if kind == 'leaf':
